@@ -227,7 +227,14 @@ fn monitored_swap(prop: SwapProp, w: &mut World, rng: &mut Rng, mon: &mut Monito
                     //                              + (in-side impact tokens paid)·P_in.min
                     let out_value = &out_amount * bi(p_out.max);
                     let in_value = bi(amount) * bi(p_in.min);
-                    let funded = &paid_out_side * bi(p_out.max) + &paid_in_side * bi(p_in.min);
+                    let funded_tokens = &paid_out_side * bi(p_out.max) + &paid_in_side * bi(p_in.min);
+                    // "the positive price impact actually funded": never more than the positive
+                    // price impact itself (on the unchanged code the token value is always below it).
+                    let positive_impact = impact_value.clone().max(zero());
+                    if funded_tokens > positive_impact {
+                        cnt(mon, "impact_pools_paid_more_than_the_positive_impact_value");
+                    }
+                    let funded = funded_tokens.min(positive_impact);
                     if out_value > &in_value + &funded {
                         mon.violation(
                             "C05:swap:out_value_exceeds_in_value_plus_funded_impact",
